@@ -52,6 +52,22 @@ inductive Verdict where
 def allAgree (impl model : List XR) (scale : Option Rat) : Bool :=
   impl.length == model.length && (List.zipWith (fun a b => XR.agrees a b scale) impl model).all id
 
+/-- every entry within one part in a million of its own exact value (entries whose exact value is zero or below 1e-290 are left to
+    the absolute comparison): the far tails of a hypergeometric row are tiny but not zero -/
+def allAgreeRel (impl model : List XR) : Bool :=
+  impl.length == model.length && (List.zipWith (fun a b => match a, b with
+    | .fin v, .fin r => if r == 0 || absRat r * ((10 ^ 290 : Nat) : Rat) < 1 then true else decide (absRat (v - r) * 1000000 ≤ absRat r)
+    | _, _ => true) impl model).all id
+
+/-- impl result `shape|bits` against a model array, absolutely (scale) and entry by entry relatively -/
+def cmpArrRel (impl : String) (shape : List Nat) (data : List XR) (scale : Option Rat) (tag : String) : Verdict :=
+  let modelS := s!"{showNats shape}|{showXRs data}"
+  match impl.splitOn "|" with
+  | [sh, bs] => match parseNats sh, parseBits bs with
+    | some s, some d => if s == shape && allAgree d data scale && allAgreeRel d data then .ok tag else .bad modelS
+    | _, _ => .bad modelS
+  | _ => .bad modelS
+
 /-- impl result `shape|bits` against a model array -/
 def cmpArr (impl : String) (shape : List Nat) (data : List XR) (scale : Option Rat) (tag : String) : Verdict :=
   let modelS := s!"{showNats shape}|{showXRs data}"
